@@ -314,7 +314,8 @@ func VH_C08_session(will int) {
 	vAssume(vAnd(vAnd(user[0] != 0, user[1] != 0), vAnd(pass[0] != 0, vAnd(pass[1] != 0, pass[2] != 0))))
 	s.clientSends(snPkts1.NewConnect(vNondetU16("keepalive"), []byte("c"), will == 1, true))
 	s.clientSends(snPkts1.NewAuthPlain(user, pass))
-	wt, wm := vNondetString("willtopic", 2), vNondetBytes("willmsg", 3)
+	// (the later datagrams are longer than the AUTH datagram: they cover its place in any reused buffer)
+	wt, wm := vNondetString("willtopic", 2), vNondetBytes("willmsg", 20)
 	if will == 1 {
 		vAssume(!vHasWild([]byte(wt)))
 		s.clientSends(snPkts1.NewWillTopic(wt, 1, false))
